@@ -28,6 +28,10 @@ pub struct PathMutImpl<'a, P: ?Sized> {
 	/// in which case some disambiguation rules applies.
 	follows_authority: bool,
 
+	/// Verification hook: the buffer holds a stand-alone path.
+	#[cfg(iref_verif)]
+	standalone: bool,
+
 	p: PhantomData<P>,
 }
 
@@ -48,6 +52,8 @@ impl<'a, P: ?Sized + PathImpl> PathMutImpl<'a, P> {
 			start,
 			end,
 			follows_authority,
+			#[cfg(iref_verif)]
+			standalone: false,
 			p: PhantomData,
 		}
 	}
@@ -64,6 +70,8 @@ impl<'a, P: ?Sized + PathImpl> PathMutImpl<'a, P> {
 			start: 0,
 			end,
 			follows_authority: true,
+			#[cfg(iref_verif)]
+			standalone: true,
 			p: PhantomData,
 		}
 	}
@@ -83,6 +91,14 @@ impl<'a, P: ?Sized + PathImpl> PathMutImpl<'a, P> {
 	}
 
 	pub fn push(&mut self, segment: &P::Segment) {
+		#[cfg(iref_verif)]
+		let span = crate::verif_trace::enter::<P>(
+			"push",
+			self.standalone,
+			self.buffer,
+			Some(segment.as_bytes()),
+		);
+
 		if self.after_authority() && self.start == self.end {
 			// VALIDITY: When an authority is present, the path must be
 			//           absolute as soon as it has a segment.
@@ -127,6 +143,9 @@ impl<'a, P: ?Sized + PathImpl> PathMutImpl<'a, P> {
 			let segment_offset = start + 1;
 			self.buffer[segment_offset..self.end].copy_from_slice(segment.as_bytes());
 		}
+
+		#[cfg(iref_verif)]
+		span.exit(self.buffer);
 	}
 
 	/// Pop the last non-`..` segment of the path.
@@ -136,9 +155,17 @@ impl<'a, P: ?Sized + PathImpl> PathMutImpl<'a, P> {
 	///
 	/// Returns `true` if the path has been modified, or `false` otherwise.
 	pub fn pop(&mut self) -> bool {
+		#[cfg(iref_verif)]
+		let span = crate::verif_trace::enter::<P>(
+			"pop",
+			self.standalone,
+			self.buffer,
+			None,
+		);
+
 		let is_empty = self.is_empty();
 
-		if (is_empty && self.is_relative() && !self.after_authority())
+		let modified = if (is_empty && self.is_relative() && !self.after_authority())
 			|| self.last().map(SegmentImpl::as_bytes) == Some(PARENT_SEGMENT)
 		{
 			self.push(<P::Segment as SegmentImpl>::PARENT);
@@ -156,13 +183,29 @@ impl<'a, P: ?Sized + PathImpl> PathMutImpl<'a, P> {
 			true
 		} else {
 			false
-		}
+		};
+
+		#[cfg(iref_verif)]
+		span.exit(self.buffer);
+
+		modified
 	}
 
 	pub fn clear(&mut self) {
+		#[cfg(iref_verif)]
+		let span = crate::verif_trace::enter::<P>(
+			"clear",
+			self.standalone,
+			self.buffer,
+			None,
+		);
+
 		let start = self.first_segment_offset();
 		replace(self.buffer, start..self.end, b"");
-		self.end = start
+		self.end = start;
+
+		#[cfg(iref_verif)]
+		span.exit(self.buffer);
 	}
 
 	/// Push the given segment to this path using the `.` and `..` segments
@@ -172,7 +215,15 @@ impl<'a, P: ?Sized + PathImpl> PathMutImpl<'a, P> {
 	/// followed by an empty segment when doing reference resolution.
 	#[inline]
 	pub fn symbolic_push(&mut self, segment: &P::Segment) -> bool {
-		match segment.as_bytes() {
+		#[cfg(iref_verif)]
+		let span = crate::verif_trace::enter::<P>(
+			"sym_push",
+			self.standalone,
+			self.buffer,
+			Some(segment.as_bytes()),
+		);
+
+		let open = match segment.as_bytes() {
 			CURRENT_SEGMENT => true,
 			PARENT_SEGMENT => {
 				self.pop();
@@ -185,7 +236,12 @@ impl<'a, P: ?Sized + PathImpl> PathMutImpl<'a, P> {
 
 				false
 			}
-		}
+		};
+
+		#[cfg(iref_verif)]
+		span.exit(self.buffer);
+
+		open
 	}
 
 	/// Append the given path to this path using the `.` and `..` segments semantics.
@@ -207,7 +263,18 @@ impl<'a, P: ?Sized + PathImpl> PathMutImpl<'a, P> {
 
 	#[inline]
 	pub fn normalize(&mut self) {
-		self.remove_dot_segments(false)
+		#[cfg(iref_verif)]
+		let span = crate::verif_trace::enter::<P>(
+			"normalize",
+			self.standalone,
+			self.buffer,
+			None,
+		);
+
+		self.remove_dot_segments(false);
+
+		#[cfg(iref_verif)]
+		span.exit(self.buffer);
 	}
 
 	/// Removes the dot segments of the path.
